@@ -1398,6 +1398,26 @@ func (c *FnCtx) funcMods(fn *ssa.Function, m *modSet, depth int) {
 	if spec := c.eng.specOf(fn); spec != nil && spec.HasMod {
 		mm := c.eng.patternMods(c, c.specModPatterns(fn, spec))
 		mm.alloc = true
+		// `modifies` speaks about program state; the ghost bookkeeping the body advances (callback log, channel
+		// sequences, tracked calls, lock generations) changes whatever the clause says
+		if len(fn.Blocks) > 0 && depth <= 6 {
+			c.eng.modCache[fn] = nil
+			body := newModSet()
+			for _, b := range fn.Blocks {
+				for _, ins := range b.Instrs {
+					c.instrMods(nil, ins, body, depth+1)
+				}
+			}
+			for k := range body.comps {
+				// bookkeeping only: the abstract message contents (ghost$msg) are program state and stay under `modifies`
+				if strings.HasPrefix(k, "ghost$cb") || strings.HasPrefix(k, "ghost$chan") || strings.HasPrefix(k, "ghost$calls$") || strings.HasPrefix(k, "ghost$arg$") || k == "ghost$lockgen" || k == "ghost$cancelled" {
+					mm.comps[k] = true
+				}
+			}
+			if body.all || bodyCallsUnknown(fn) {
+				c.cbGhostMods(mm) // some call of a function value: the callback log advances
+			}
+		}
 		c.eng.modCache[fn] = mm
 		m.union(mm)
 		return
@@ -1684,4 +1704,24 @@ func (c *FnCtx) ptrTerm(v Val) string {
 
 func (c *FnCtx) scalarFaddr(structT types.Type, field int, ref string) string {
 	return c.faddr(structT, field, ref)
+}
+
+// bodyCallsUnknown: the function (not looking into callees) calls a function value or interface method.
+func bodyCallsUnknown(fn *ssa.Function) bool {
+	for _, b := range fn.Blocks {
+		for _, ins := range b.Instrs {
+			if call, ok := ins.(ssa.CallInstruction); ok {
+				cc := call.Common()
+				if cc.IsInvoke() {
+					return true
+				}
+				switch cc.Value.(type) {
+				case *ssa.Function, *ssa.Builtin, *ssa.MakeClosure:
+				default:
+					return true
+				}
+			}
+		}
+	}
+	return false
 }
